@@ -137,23 +137,26 @@ Qed.
 
 (* whenever the call returns, the mantissa m in [1,2) and the TRUE normalized
    exponent recombine exactly; the returned exponent is the true one rounded
-   (inexactly!) by the context, so the returned pair recombines iff the
-   exponent is representable -- see frexp_exponent_rounded_refuted *)
-Theorem frexp_recombine_partial fc xctx r m e : rf_wf r -> is_zero r = false ->
-  core_frexp fc xctx (FFin r) = Ok (m, e) ->
-  exists y, float_normalize xctx r = Ok y /\
+   by the context (inexactly for the pinned variant: the returned pair then
+   recombines iff the exponent is representable -- see
+   frexp_exponent_rounded_refuted) *)
+Theorem frexp_recombine_partial v fc xctx r m e : rf_wf r -> is_zero r = false ->
+  core_frexp v fc xctx (FFin r) = Ok (m, e) ->
+  exists y, (if fv_normalize v then float_normalize xctx r else Ok r) = Ok y /\
     fl_fin m /\ (fl_val m * bpow radix2 (rf_e y) = R2R r)%R /\
-    (1 <= Rabs (fl_val m) < 2)%R /\
-    fl_round fc false (FFin (RF (rf_e y <? 0) 0 (Z.abs (rf_e y)))) = Ok e.
+    (1 <= Rabs (fl_val m) < 2)%R /\ fl_s m = rs r /\
+    fl_round fc (fv_exact_e v) (FFin (RF (rf_e y <? 0) 0 (Z.abs (rf_e y)))) = Ok e.
 Proof.
   intros Hw Hz. unfold core_frexp. rewrite Hz.
-  destruct (float_normalize xctx r) as [y|er] eqn:En; cbn [bind]; [|discriminate].
+  destruct (if fv_normalize v then float_normalize xctx r else Ok r) as [y|er] eqn:En; cbn [bind]; [|discriminate].
   assert (Hy : R2R y = R2R r /\ rs y = rs r /\ rf_wf y).
-  { destruct xctx as [[p n]|]; unfold float_normalize in En; [|discriminate]. eapply normalize_denote; eassumption. }
+  { destruct (fv_normalize v).
+    - destruct xctx as [[p n]|]; unfold float_normalize in En; [|discriminate]. eapply normalize_denote; eassumption.
+    - inversion En; subst. auto. }
   destruct Hy as (Vy & Sy & Wy). unfold rf_wf in Wy.
   set (mm := RF (rs y) (0 - bitlen (rc y) + 1) (rc y)).
   destruct (fl_round fc true (FFin mm)) as [m'|er] eqn:Em; cbn [bind]; [|discriminate].
-  destruct (fl_round fc false _) as [e'|er] eqn:Ee; cbn [bind]; [|discriminate].
+  destruct (fl_round fc (fv_exact_e v) _) as [e'|er] eqn:Ee; cbn [bind]; [|discriminate].
   intros [= <- <-]. exists y. split; [reflexivity|].
   apply fl_round_exact_same in Em; [|exact Wy].
   destruct m' as [a| |]; simpl in Em; try contradiction. destruct Em as [Va Sa].
@@ -187,26 +190,54 @@ Proof.
       by (rewrite <- bpow_plus; replace (bitlen (rc y) + (0 - bitlen (rc y) + 1)) with 1 by lia; reflexivity).
     apply Rmult_lt_compat_r; [apply bpow_gt_0|].
     rewrite <- IZR_Zpower by lia. apply IZR_lt. exact B.
+  - rewrite Sa. unfold mm. simpl. exact Sy.
 Qed.
 
-(* an operand that carries no context (e.g. built by Float.from_float, or an
-   argument passed from Python) is rejected: x.normalize() raises *)
+Lemma R2R_of_int (z : Z) : R2R (RF (z <? 0) 0 (Z.abs z)) = IZR z.
+Proof.
+  rewrite R2R_mk. unfold F2R; simpl. rewrite Rmult_1_r. f_equal.
+  destruct (Z.ltb_spec z 0); lia.
+Qed.
+
+(* the repaired frexp (no normalize(), exponent rounded with exact=True): whenever
+   it returns -- for ANY finite non-zero operand, with or without a context --
+   the returned pair recombines exactly: x = m * 2^e, 1 <= |m| < 2, e an integer *)
+Theorem frexp_recombine_repaired fc xctx r m e : rf_wf r -> is_zero r = false ->
+  core_frexp frexp_repaired fc xctx (FFin r) = Ok (m, e) ->
+  fl_fin m /\ fl_fin e /\ fl_val e = IZR (rf_e r) /\
+  (fl_val m * bpow radix2 (rf_e r) = R2R r)%R /\ (1 <= Rabs (fl_val m) < 2)%R /\ fl_s m = rs r.
+Proof.
+  intros Hw Hz H.
+  destruct (frexp_recombine_partial frexp_repaired fc xctx r m e Hw Hz H) as (y & Hy & Fm & Hrec & Hm & Hs & He).
+  simpl in Hy. inversion Hy; subst y. simpl fv_exact_e in He.
+  apply fl_round_exact_same in He; [|simpl; unfold rf_wf; simpl; lia].
+  destruct e as [b| |]; simpl in He; try contradiction. destruct He as [Vb _].
+  simpl. rewrite Vb, R2R_of_int. repeat split; auto; tauto.
+Qed.
+
+(* pinned variant: an operand that carries no context (e.g. built by
+   Float.from_float, or an argument passed from Python) is rejected *)
 Theorem frexp_no_context_rejected fc r : is_zero r = false ->
-  core_frexp fc None (FFin r) = Err ValueErr.
+  core_frexp frexp_pinned fc None (FFin r) = Err ValueErr.
 Proof. intros Hz. unfold core_frexp. rewrite Hz. reflexivity. Qed.
 
-(* the exponent is rounded without exact=True: in a 2-digit format frexp(32)
-   answers (1, 4) and 1 * 2^4 <> 32 *)
+(* pinned variant: the exponent is rounded without exact=True: in a 2-digit
+   format frexp(32) answers (1, 4) and 1 * 2^4 <> 32 *)
 Theorem frexp_exponent_rounded_refuted :
-  exists fc xctx r m e, core_frexp fc xctx (FFin r) = Ok (FFin m, FFin e) /\
+  exists fc xctx r m e, core_frexp frexp_pinned fc xctx (FFin r) = Ok (FFin m, FFin e) /\
     rf_eqb e (RF false 0 (rf_e r)) = false /\ rf_eqb m (RF false 0 1) = true /\ rf_e r = 5.
 Proof.
   exists (FC 2 None RNE), (Some (2, None)), (RF false 4 2), (RF false (-1) 2), (RF false 1 2).
   vm_compute. repeat split; reflexivity.
 Qed.
 
-Theorem frexp_specials fc xctx x m e :
-  core_frexp fc xctx x = Ok (m, e) ->
+Example frexp_repaired_same_operand :
+  core_frexp frexp_repaired (FC 2 None RNE) None (FFin (RF false 4 2)) = Err ValueErr /\
+  core_frexp frexp_repaired (FC 3 None RNE) None (FFin (RF false 4 2)) = Ok (FFin (RF false (-1) 2), FFin (RF false 0 5)).
+Proof. vm_compute. split; reflexivity. Qed.
+
+Theorem frexp_specials v fc xctx x m e :
+  core_frexp v fc xctx x = Ok (m, e) ->
   match x with
   | FNaN _ => fl_isnan m = true /\ fl_isnan e = true
   | FInf s => m = FInf s /\ fl_isnan e = true
